@@ -341,7 +341,7 @@ func (k *Kernel) handle(t *task, r *Req) {
 		t.pending = k.doReadFile(t, r.S)
 		k.trace(t, r.Op, fmt.Sprintf("%s st=%d n=%d", r.S, t.pending.Status, len(t.pending.Data)))
 	case OpStat:
-		t.pending = k.doStat(t, r.S)
+		t.pending = k.doStat(t, r.S, r.A == 1)
 		k.trace(t, r.Op, fmt.Sprintf("%s st=%d", r.S, t.pending.Status))
 	case OpReadDir:
 		t.pending = k.doReadDir(t, r.S)
@@ -349,6 +349,24 @@ func (k *Kernel) handle(t *task, r *Req) {
 	case OpWriteFile:
 		t.pending = k.doWriteFile(t, r.S, r.Data)
 		k.trace(t, r.Op, fmt.Sprintf("%s st=%d n=%d", r.S, t.pending.Status, len(r.Data)))
+	case OpEvalSymlinks:
+		k.ioOps++
+		rp, st := k.disk.Resolve(r.S, true)
+		if st == 0 {
+			if _, isFile := k.disk.Files[rp]; !isFile && !k.disk.Dirs[rp] {
+				st = 2 // ENOENT
+			}
+		}
+		t.pending = Rep{Status: st, S: rp}
+		k.trace(t, r.Op, fmt.Sprintf("%s -> %s st=%d", r.S, rp, st))
+	case OpReadlink:
+		k.ioOps++
+		if tg, ok := k.disk.Links[r.S]; ok {
+			t.pending = Rep{S: tg}
+		} else {
+			t.pending = Rep{Status: 22} // EINVAL
+		}
+		k.trace(t, r.Op, r.S)
 	case OpGetwd:
 		k.ioOps++
 		if f := k.matchFault(OpGetwd, ""); f != nil {
